@@ -469,8 +469,18 @@ def observe_numeric(cin, mode, pform="plain", container="list", extras=False):
         for rx in cin["rxns"]:
             v["k%d" % rx["k"]] = conv(rx["kv"], mode)
     cs = cstr_arg(cin)
-    replay_history(rsys, cin, lambda i, kv: _param_form(pform, i, conv(kv, mode)),
-                   lambda: ([r.rate(v) for r in rsys.rxns], rsys.rates(v, substance_keys=subst)))
+    def touch():
+        # every observation point is evaluated BEFORE each step of the history, so that anything a
+        # call might remember (wrappers, key lists, matrices) exists when the step happens
+        guarded(lambda: [r.rate(v) for r in rsys.rxns])
+        guarded(lambda: rsys.rates(v, substance_keys=list(rsys.substances)))
+        guarded(lambda: rsys.rates(v))
+        guarded(lambda: stoich_tables(rsys, list(rsys.substances), cin["rxns"]))
+        if pform != "str":
+            c0 = [v[s] for s in rsys.substances]
+            ex = ({},) if pform == "ma" else ()
+            guarded(lambda: dCdt_list(rsys, list(law_of_mass_action_rates(c0, rsys, *ex))))
+    replay_history(rsys, cin, lambda i, kv: _param_form(pform, i, conv(kv, mode)), touch)
     obs = {}
     v0 = dict(v)
     obs["contrib_keys"] = [guarded(lambda r=r: proj_dict(r.rate(v, substance_keys=subst), subst)) for r in rsys.rxns]
@@ -592,9 +602,13 @@ def observe_symbolic(cin, kmode):
     v = symbols_for(cin)
     cs = cstr_arg(cin)
     names = var_names(cin)
-    if kmode == "num":
-        replay_history(rsys, cin, lambda i, kv: conv(kv, "sym"),
-                       lambda: ([r.rate(v) for r in rsys.rxns], rsys.rates(v, substance_keys=subst)))
+    def touch():
+        guarded(lambda: [r.rate(v) for r in rsys.rxns])
+        guarded(lambda: rsys.rates(v, substance_keys=list(rsys.substances)))
+        guarded(lambda: rsys.net_stoichs())
+        guarded(lambda: dCdt_list(rsys, list(law_of_mass_action_rates([v[s] for s in rsys.substances], rsys))))
+    replay_history(rsys, cin, (lambda i, kv: conv(kv, "sym")) if kmode == "num" else (lambda i, kv: sympy.Symbol("k%d" % i)),
+                   touch)
 
     def tab(d):
         extra = sorted(k for k in d if k not in subst)
